@@ -128,6 +128,8 @@ def lift(o):
     import numpy as np
     if isinstance(o, np.generic):
       return lift(o.item())
+    if isinstance(o, np.ndarray) and o.size == 1:
+      return lift(o.reshape(-1)[0])
   except ImportError:
     pass
   raise TypeError("cannot lift %r" % (o,))
@@ -378,7 +380,13 @@ def sym_float(x):
 
 
 def _is_sym(v):
-  return isinstance(v, (SymInt, SymReal, SymBool))
+  if isinstance(v, (SymInt, SymReal, SymBool)):
+    return True
+  try:
+    import numpy as np
+    return isinstance(v, np.ndarray) and v.dtype == object and v.size == 1 and isinstance(v.reshape(-1)[0], (SymInt, SymReal, SymBool))
+  except ImportError:
+    return False
 
 
 def sym_max(*a, **kw):
